@@ -325,7 +325,15 @@ class Outcome:
                     if rec:
                         g = json.loads(rec)
                         i = ex % 1000
-                        rec = json.dumps(dict(k=g.get("k"), be=g.get("be"), pre=g.get("pre"), steps=[g["steps"][i - 1]] if 0 < i <= len(g["steps"]) else []))
+                        if g.get("k") == "h":
+                            cur = g["init"]
+                            for st in g["steps"][:max(i - 1, 0)]:
+                                if st["same"] == "f":
+                                    cur = st["post"]
+                            rec = json.dumps(dict(k="g", be=g.get("be"), route=g.get("route"), pre=cur, steps=[g["steps"][i - 1]] if 0 < i <= len(g["steps"]) else [],
+                                                  history_calls=[st["c"] for st in g["steps"][:max(i - 1, 0)]][-40:]))
+                        else:
+                            rec = json.dumps(dict(k=g.get("k"), be=g.get("be"), pre=g.get("pre"), steps=[g["steps"][i - 1]] if 0 < i <= len(g["steps"]) else []))
                 else:
                     rec = read_line(chunk, ex)
             hit = None
